@@ -237,7 +237,7 @@ class XMLResourceLoader:
             for event, node in self._iterparse(fp, events):
                 if event == 'start':
                     remaining_levels -= 1
-                    if not remaining_levels:
+                    if remaining_levels < 0:
                         msg = "maximum XML depth reached (MAX_XML_DEPTH={}) for {}"
                         raise XMLResourceExceeded(msg.format(_limits.MAX_XML_DEPTH, self))
 
@@ -297,10 +297,10 @@ class XMLResourceLoader:
                 if event == 'start':
                     remaining_levels -= 1
                     remaining_elements -= 1
-                    if not remaining_levels:
+                    if remaining_levels < 0:
                         msg = "maximum XML depth reached (MAX_XML_DEPTH={}) for {!r}"
                         raise XMLResourceExceeded(msg.format(_limits.MAX_XML_DEPTH, self))
-                    if not remaining_elements:
+                    if remaining_elements < 0:
                         msg = ("maximum XML elements reached (MAX_XML_ELEMENTS={} for {!r}). "
                                "Try to increase the limit or process the data using a lazy "
                                "XMLResource, that has no limit.")
